@@ -656,11 +656,15 @@ def check_concat(ck, dss, case, valid, use_model, alias=None):
             ck.violation("concat-expand", f"expand(concat) raised {type(e).__name__}: {e}", what_case)
         check_valid(ck, cc, case, use_model, "concat/", "concat")
     if use_model:
-        toks = []
+        toks, flips = [], []
         for d in dss:
             pr = np.asarray(d["Collocations/pairs"].values)
-            toks.append(ds_tokens(pr, flat_rows(d, groups[0])[0], flat_rows(d, groups[1])[0]))
-        if alias is None:
+            own = d["Collocations/group"].values.tolist()       # a member may have the opposite group order
+            flips.append(0 if own == groups else 1)
+            toks.append(ds_tokens(pr, flat_rows(d, own[0])[0], flat_rows(d, own[1])[0]))
+        if any(flips):
+            line = f"concatmixed {len(dss)} " + " ".join(toks) + " " + " ".join(str(f) for f in flips)
+        elif alias is None:
             line = f"concat {len(dss)} " + " ".join(toks)
         else:
             line = f"concatalias {len(dss)} " + " ".join(toks) + f" {len(ids)} " + " ".join(str(i) for i in ids)
@@ -848,9 +852,13 @@ def run_ds_case(ck, case, use_model):
     cc = None
     has_nc = any(not any(dm.endswith("/collocation") for dm in v["dims"]) for d in case["list"] for g in d["groups"]
                  for v in d["vars"][g].values())
+    # precondition of the concat claim: every member has the group order of the first one
+    mixed = any(d["groups"] != case["list"][0]["groups"] for d in case["list"])
     if (valid or case.get("alias") is not None) and not has_nc:
         if all(len(d["pairs"][0]) for d in case["list"]):
-            cc = check_concat(ck, dss, case, valid, use_model, alias=case.get("alias"))
+            cc = check_concat(ck, dss, case, valid and not mixed, use_model, alias=None if mixed else case.get("alias"))
+    if mixed:
+        cc = None
     if cc is not None and valid and case.get("alias") is None and len(dss) > 1:
         check_dataset(ck, cc, case, True, use_model, tag="concat/")
     mult = case["list"][0]
@@ -859,7 +867,7 @@ def run_ds_case(ck, case, use_model):
         key = json.dumps([d["pairs"] for d in case["list"]])[:4000]
     nbucket = "n=1" if n0 == 1 else "n<1000" if n0 < 1000 else "n>=1000"
     ck.case(key=key, kind=f"ds/{mult.get('style')}/{nbucket}" + ("/malformed:" + str(mult.get("malformed")) if not valid else "") +
-            ("/alias" if case.get("alias") is not None else ""),
+            ("/alias" if case.get("alias") is not None else "") + ("/mixed-group-order" if mixed else ""),
             sample={"pairs": [p[:10] for p in mult["pairs"]], "n": mult["n"], "vars": sorted(mult["vars"][mult["groups"][0]])})
 
 
@@ -1118,7 +1126,15 @@ def gen_ds_case(rng, big):
         lst.append(gen_ds(rng, layout, s, style=style, idbase=1000 * i))
     case = {"op": "ds", "list": lst, "alias": None, "collapser": rng.random() < 0.5}
     r = rng.random()
-    if r < 0.12 and size < 999:
+    if r > 0.95 and k > 1 and size < 500:
+        # agree-only stream: a member whose Collocations/group order is the opposite of the first's
+        for d in lst[1:]:
+            if rng.random() < 0.6:
+                d["groups"] = d["groups"][::-1]
+                d["pairs"] = d["pairs"][::-1]
+        if all(d["groups"] == lst[0]["groups"] for d in lst):
+            lst[-1]["groups"], lst[-1]["pairs"] = lst[-1]["groups"][::-1], lst[-1]["pairs"][::-1]
+    elif r < 0.12 and size < 999:
         malform(rng, lst[rng.randrange(k)])
     elif r < 0.17 and size < 500:
         case["alias"] = [rng.randrange(k) for _ in range(rng.randint(2, 4))]
